@@ -244,6 +244,28 @@ fn scen(_spec: RunSpec) -> ScenFut {
                 seen_versions.push(m);
             }
             // router part: feeding observed versions in any order never lowers the cached generation
+            // the same with a 60 s TTL and time passing between the updates: an expired entry is not served, but a late
+            // stale update must not bring an older generation back either
+            if !seen_versions.is_empty() {
+                let router = ShardRouter::new(std::time::Duration::from_secs(60));
+                let key = cardinalsin::sharding::ShardKey::new(0, "cpu", 0);
+                let mut maxg = 0;
+                let k = seen_versions.len();
+                for _ in 0..(2 * k) {
+                    if sim::w(3) == 2 {
+                        tokio::time::sleep(std::time::Duration::from_secs([30u64, 61, 200][sim::w(3) as usize])).await;
+                    }
+                    let mut m = seen_versions[sim::w(k as u32) as usize].clone();
+                    m.state = ShardState::Active;
+                    router.update_routing(m.clone());
+                    maxg = maxg.max(m.generation);
+                    if let Some(g) = router.get_shard(&key) {
+                        if g.generation < maxg {
+                            sim::violation("C13/router-generation-regressed", format!("{shard}: router (TTL 60 s, time passing) serves generation {} after having seen {maxg}", g.generation));
+                        }
+                    }
+                }
+            }
             if !seen_versions.is_empty() {
                 let router = ShardRouter::new(std::time::Duration::from_secs(3600));
                 let key = cardinalsin::sharding::ShardKey::new(0, "cpu", 0);
